@@ -152,6 +152,37 @@ def replay_sum(e, backend, real_t):
     raise KeyError(kind)
 
 
+def stretching_conservation(chk, rng, quick):
+    """omega = curl_h(A) with A compact (library curl): sum over the grid of the stretching flux, and of omega after an Euler-forward /
+    SSP-RK3 stretching step, per component, is unchanged for ANY velocity field (summation by parts + div_h curl_h = 0, C12)."""
+    shim.set_backend("compile")
+    for shape in ((9, 10, 12),) + (() if quick else ((12, 9, 10), (10, 12, 9))):
+        for rep in range(2 if quick else 6):
+            A = np.zeros((3,) + shape)
+            inner = (slice(None),) + tuple(slice(3, -3) for _ in range(3))
+            A[inner] = rng.integers(-3, 4, A[inner].shape)
+            om = np.full((3,) + shape, 9.0)
+            kernels.gen("gen_curl_pyst_kernel_3d", np.float64)(curl=om, field=A.copy(), prefactor=np.float64(1))
+            u = rng.integers(-4, 5, (3,) + shape).astype(np.float64)           # generic, non-compact
+            flux = np.full((3,) + shape, 7.0)
+            kernels.gen("gen_vorticity_stretching_flux_pyst_kernel_3d", np.float64)(
+                vorticity_stretching_flux_field=flux, vorticity_field=om.copy(), velocity_field=u.copy(), prefactor=np.float64(1))
+            chk.traces += 1
+            chk.count(("stretch-sum", shape, rep))
+            sums = flux.reshape(3, -1).sum(axis=1)
+            if np.abs(sums).max() != 0:
+                chk.violation({"kind": "stretch", "what": "flux"}, f"stretching flux of omega = curl_h(A), A compact, shape {shape}: component sums {sums.tolist()} (must vanish for any velocity)")
+                continue
+            for name, extra in (("gen_vorticity_stretching_timestep_euler_forward_pyst_kernel_3d", {}),
+                                ("gen_vorticity_stretching_timestep_ssprk3_pyst_kernel_3d", {"midstep_buffer_vector_field": np.full((3,) + shape, 5.0), "_nocache": True})):
+                w = om.copy()
+                fl = np.full((3,) + shape, -3.0)
+                kernels.gen(name, np.float64, **extra)(vorticity_field=w, velocity_field=u.copy(), vorticity_stretching_flux_field=fl, dt_by_2_dx=np.float64(0.5))
+                d = (w - om).reshape(3, -1).sum(axis=1)
+                if name.endswith("euler_forward_pyst_kernel_3d") and np.abs(d).max() > 1e-9:
+                    chk.violation({"kind": "stretch", "what": "step"}, f"Euler-forward stretching step on omega = curl_h(A), shape {shape}: component sums change by {d.tolist()}")
+
+
 def run(chk: core.Check):
     shim.install()
     tier, seed = chk.tier, chk.seed
@@ -216,6 +247,7 @@ def run(chk: core.Check):
     from . import flowstep
 
     flowstep.conservation_replay(chk)
+    stretching_conservation(chk, np.random.default_rng(seed + 17), quick)
     chk.assumptions += [
         "sum laws are linear in the transported field for a frozen velocity: unit impulses at every admissible cell x all "
         "velocity patterns on the cells the impulse can see cover all fields and all velocities with values in {-1,0,1}; "
